@@ -64,6 +64,26 @@ pub struct Case {
     /// plan for every twin of the run, so "same seed" still means "same stream" (seam S1b, rand::sim)
     #[serde(default)]
     pub std_fault: Option<(u64, u32)>,
+    /// cells of the query rows that hold a non-finite value: (query row, column, 1 = NaN, 2 = +inf, 3 = -inf).
+    /// (Kept apart from `queries` because JSON has no spelling for them.) A forest aggregates its trees for every
+    /// row, also for one with a missing value in it.
+    #[serde(default)]
+    pub nonfinite_cells: Vec<(usize, usize, u8)>,
+}
+
+/// the query rows with their non-finite cells filled in
+fn queries_of(case: &Case) -> Vec<Vec<f64>> {
+    let mut q = case.queries.clone();
+    for (r, c, kind) in &case.nonfinite_cells {
+        if *r < q.len() && *c < q[*r].len() {
+            q[*r][*c] = match kind {
+                1 => f64::NAN,
+                2 => f64::INFINITY,
+                _ => f64::NEG_INFINITY,
+            };
+        }
+    }
+    q
 }
 
 /// installs the seeded-generator fault plan on the current thread for the lifetime of the guard
@@ -140,7 +160,7 @@ fn fit_once_t<T: RealNumber + Serialize + Send + 'static>(case: &Case, ambient: 
     let x: DenseMatrix<T> = mat_t(&case.x);
     let yt: Vec<T> = case.y.iter().map(|v| T::from_f64(*v).unwrap()).collect();
     let mut q = case.x.clone();
-    q.extend(case.queries.iter().cloned());
+    q.extend(queries_of(case));
     let qm: DenseMatrix<T> = mat_t(&q);
     let guard = ambient.as_ref().map(TapeGuard::install);
     let _plan = StdPlanGuard::install(case.std_fault);
@@ -666,7 +686,7 @@ impl C06 {
         }
         // ---- 3. aggregation: rebuild every member tree from the serde image and call its real predict
         let mut q = case.x.clone();
-        q.extend(case.queries.iter().cloned());
+        q.extend(queries_of(case));
         let nq = q.len();
         // member trees also predict the op-2 matrix (appended after the queries)
         let altm = alt_rows(case);
@@ -1091,8 +1111,17 @@ fn gen_case(batch: &str, _index: u64, seed: u64) -> Case {
     pr.shuffle(&mut ops);
     let (pollute, refit_same_thread, ctor) = (pr.chance(0.5), pr.chance(0.5), pr.below(6) as u8);
     // boundary values in the forest's own seeded generator: rates from "one or two per forest" to "a third of all draws"
+    let mut nonfinite_cells = vec![];
+    {
+        let mut nf = Xo::fork(seed, "nonfinite");
+        if !queries.is_empty() && nf.chance(0.15) {
+            for _ in 0..nf.usize_in(1, 3) {
+                nonfinite_cells.push((nf.below(queries.len() as u64) as usize, nf.below(p as u64) as usize, 1 + nf.below(3) as u8));
+            }
+        }
+    }
     let std_fault = if batch == "twins-draw-faults" { Some((sc.u64(), *pr.pick(&[300u32, 3000, 30_000, 150_000, 350_000]))) } else { None };
-    Case { task: task.into(), x, y, params, queries, ambient_a, ambient_b, pollute, ops, refit_same_thread, kind: kind.into(), ctor, f32m, std_fault }
+    Case { task: task.into(), x, y, params, queries, ambient_a, ambient_b, pollute, ops, refit_same_thread, kind: kind.into(), ctor, f32m, std_fault, nonfinite_cells }
 }
 
 impl Property for C06 {
@@ -1180,6 +1209,7 @@ impl Property for C06 {
         if !case.queries.is_empty() {
             let mut c = case.clone();
             c.queries.clear();
+            c.nonfinite_cells.clear();
             push(c);
         }
         if case.pollute {
